@@ -1,5 +1,5 @@
 # replay of a bounded stand-in violation (C13): re-run native/c13_tdm.py
 import sys
-print('N=[1] bands measured in order [0] timebins=3 shots=1: samples[0,0,1] identifies pulse 1, expected pulse 2 (band 0)')
+print("calls ('space1', 'roll', 'space1'): the program no longer runs: IndexError: list index out of range")
 print('REPLAY-VIOLATION')
 sys.exit(1)
